@@ -187,8 +187,7 @@ def worker(ctx, prop):
         @deco
         @given(st.data())
         def t(data):
-            if ctx.abort_chunk:
-                return
+            # every draw happens before anything that depends on the run's state (Hypothesis replays examples and requires identical draws)
             f = data.draw(st.sampled_from(names))
             txt = [c for c in data.draw(fonts.text_strategy(sup[f], 0, ctx.n(24, 64))) if c]
             if prop == 'C02' and txt and data.draw(st.integers(0, ctx.n(60, 12))) == 0:
@@ -201,6 +200,8 @@ def worker(ctx, prop):
                     txt.insert(data.draw(st.integers(0, len(txt))), ['raw', list(data.draw(st.sampled_from(ILLFORMED[enc])))])
             case = dict(kind='shipped', font=f, text=txt, dir=data.draw(st.integers(0, 7)), enc=enc,
                         ppm=data.draw(st.sampled_from([0.0, 0.0, 14.0, -15.0])), check_gid=True)
+            if ctx.abort_chunk:
+                return
             try:
                 r, other = judge(drv, case, prop, ctx)
             except fw.Hang:
